@@ -1,7 +1,7 @@
 SPECIFICATION Spec
 CONSTANTS
   Shapes0 <- MCShapes
-  Acts = {"set_ctrlpts", "set_weights", "set_ctrlptsw", "shrink_ctrlpts", "scale_weights", "read"}
+  Acts = {"set_ctrlpts", "set_weights", "set_ctrlptsw", "shrink_ctrlpts", "scale_weights", "read", "edit_ctrlptsw", "fork"}
   MaxDepth = 3
   DepthCurve = 3
   DepthOther = 2
